@@ -186,6 +186,17 @@ def ssb_shrink(family: str, routines: tuple, code: str) -> tuple:
     return cur
 
 
+# ExplorerScript routine ids may skip numbers (the tables then hold empty entries for the skipped ids): the three tables must
+# still have one length
+GAP_TEXTS = [
+    "def 0 {\n    a();\n}\ndef 1 {\n    b();\n}\ndef 4 {\n    c();\n}\n",
+    "def 2 {\n    a();\n    end;\n}\n",
+    "def 0 {\n    a();\n}\ndef 3 for actor 2 {\n    b();\n    jump @x;\n    §x;\n    c();\n}\ndef 7 for object OBJ {\n    d();\n}\n",
+    "def 1 {\n    a();\n}\ndef 3 {\n    if (debug) {\n        b();\n    }\n    c();\n}\ndef 6 {\n    d();\n}\ndef 9 {\n    e();\n}\n",
+    "def 5 {\n    @l;\n    a();\n    jump @l;\n}\ndef 8 {\n    call @l;\n}\n",
+]
+
+
 # ====================================================================================== workers
 _CACHE: dict = {}
 
@@ -205,7 +216,12 @@ def _worker_impl(args: tuple) -> dict:
 
     res = {"evaluations": 0, "rejected": 0, "jump_ops": 0, "hashes": [], "violations": {}, "rejected_samples": []}
     for item in items:
-        if item[0] == "s":
+        if item[0] == "g":
+            text = GAP_TEXTS[item[1]]
+            prog = None
+            family, routines = "routine-id-gap", ()
+            nontrivial = True
+        elif item[0] == "s":
             _, tier, idx = item
             if ("ssb", tier) not in _CACHE:
                 _CACHE[("ssb", tier)] = ssb_texts(tier)
@@ -234,6 +250,9 @@ def _worker_impl(args: tuple) -> dict:
                 small = C01.shrink_by(prog, lambda p, code=code: any(c == code for c, _ in analyse_text(P.to_text(p))[1]), 200)
                 stext = P.to_text(small)
                 sig = f"C03:explorerscript:{code}:{C01.shape(small)}"
+            elif family == "routine-id-gap":
+                stext = text
+                sig = f"C03:explorerscript:{code}:routine-ids-with-gaps"
             else:
                 small_r = ssb_shrink(family, routines, code)
                 stext = ssb_text(small_r, 0, family_ids(family, len(small_r)) if ":ids=" in family else None)
@@ -258,7 +277,7 @@ def run_t3(ctx: Ctx) -> PropResult:
     t0 = time.time()
     res = PropResult(prop="C03", level="exploration")
     n_ssb = len(ssb_texts(ctx.tier))
-    items = C01.work_items(ctx) + [("s", ctx.tier, i) for i in range(n_ssb)]
+    items = C01.work_items(ctx) + [("s", ctx.tier, i) for i in range(n_ssb)] + [("g", i) for i in range(len(GAP_TEXTS))]
     outs = C01.run_pool(_worker, C01.chunks(items, ctx.jobs), ctx.jobs)
     tot = {k: sum(o[k] for o in outs) for k in ("evaluations", "rejected", "jump_ops")}
     hashes: dict = {}
